@@ -21,9 +21,12 @@ CFG = dict(
          "(7) on the values of (2): is_nat / is_not_nat of DateTime<U>, Time and TimeDelta::from(i64), "
          "into_opt_i64(from_opt_i64(Some x)), from_opt_i64(None) (fn=flags); on the values of (3): the TryFrom<DateTime<U>> "
          "impl called directly (no NaT test by the caller), the deprecated to_cr, and From<chrono> of the TryFrom result "
-         "(fn=tryfrom). "
+         "(fn=tryfrom); (8) audit: DateTime / TimeDelta / Time ::default(), TimeDelta::nat(), From<Duration> / From<Option<Duration>> "
+         "(fn=defaults, fn=tddur), From<NaiveDate> at all four units over chrono's whole date range with the six fields of the "
+         "result (fn=naivedate), and the five valid-operands-give-NaT witnesses of C16_nat_result_converse_refuted on the real "
+         "operators (fn=valid_to_nat). "
          "non-trivial = distinct case descriptions not tagged nt=0",
-    theorem_hint="Props/C16.v: C16_nat_conv_*, C16_nat_ops_*, C16_coarsen_*, C16_refine_back, C16_cr_roundtrip*, C16_try_from_*, C16_is_not_nat",
+    theorem_hint="Props/C16.v: C16_nat_conv_*, C16_nat_ops_*, C16_coarsen_*, C16_refine_back, C16_cr_roundtrip*, C16_try_from_*, C16_is_not_nat, C16_into_unit_closed_form, C16_into_unit_panics_iff, C16_refine_as_chrono, C16_as_chrono_all_pairs, C16_fields_reconstruct, C16_valid_stays_valid",
     level_text="Proof: 30 theorems (Props/C16.v, axiom-free, over Z; the last 8 — is_not_nat for the three types, the "
                "Option<i64> view both ways, TryFrom = as_cr on every timestamp of every unit incl. NaT, its round trip, "
                "to_cr = as_cr — about Model/TimeAccess.v) about the Gallina model of tea-time "
@@ -31,6 +34,16 @@ CFG = dict(
                "instant (also before 1970) and equal to the conversion through chrono's (secs, nanos) model; refine-and-"
                "back identity; as_cr/From<chrono> round trips; the executable proleptic-Gregorian calendar is a "
                "bijection (days_of_civil . civil_of_days = id for all Z, by two exhaustive era sweeps lifted to Z). "
+               "The audit (Proofs/Audit16.v, notes/C16.md 'Audit matrix') added 25 theorems, 55 in total, all axiom-free: ONE closed "
+               "form of into_unit for the 16 unit pairs and every i64 (no finer-hypothesis), the rejected input exactly (panic <=> "
+               "refining, non-NaT, product outside i64; the unimplemented!() arm is unreachable), NaT comes out of a unit change only "
+               "if NaT went in, conversions are monotone, coarsening composes, coarsen-then-refine = x - x mod ratio (not the identity, "
+               "can overflow next to i64::MIN), the calendar-library clause for the REFINING pairs and for all pairs at once (the only "
+               "disagreement: target ns outside the i64 window, library route NaT vs debug overflow panic), as_cr = None exactly on NaT "
+               "or outside chrono's date range, the six getters reconstruct the instant, Default / From<NaiveDateTime|Option|NaiveDate|"
+               "Duration|Option<Duration>> / the Cast views (model added), TimeDelta / TimeDelta and duration_trunc with a NaT operand "
+               "(panics, in source order of the checks), and the converse of absorption refuted by five witnesses replayed on the code. "
+               "Nothing is partial. "
                "The model is tied to the code by the differential run over the real public API.",
     level_note="Trusted: Coq kernel; the hand-written model of convert.rs / datetime.rs / impl_datetime.rs / impl_ops.rs "
                "and of chrono's from_timestamp*/timestamp*/date range; chrono itself is compared, not verified (year/"
